@@ -7,7 +7,7 @@ Holds the TwoEndedLink class.
 
 from __future__ import annotations
 from typing import TYPE_CHECKING
-from edgegraph.structure import link, vertex
+from edgegraph.structure import base, link, vertex
 
 if TYPE_CHECKING:
     from edgegraph.structure.vertex import Vertex
@@ -91,6 +91,7 @@ class TwoEndedLink(link.Link):
         """
         self._replace_end(0, new)
 
+    @base.invalidates_when_cut_short("_invalidate_neighbor_caches")
     def _replace_end(self, idx: int, new: Vertex):
         """
         Helper method to replace one end of this edge, in place.
